@@ -181,3 +181,153 @@ func inList(s string, l []string) bool {
 	}
 	return false
 }
+
+// one returns the unique call site of callee in fn (closures excluded), or
+// records the anchor as unresolved.
+func (r *R) one(rule string, fn *ssa.Function, callee string) ssa.CallInstruction {
+	if fn == nil {
+		return nil
+	}
+	ss := r.sites(fn, false, callee)
+	if len(ss) != 1 {
+		r.c.Stuck(rule, "anchor:"+core.ShortFn(fn)+"→"+callee, r.p.Pos(fn.Pos()), fmt.Sprintf("expected exactly one call to %s in %s, found %d", callee, core.ShortFn(fn), len(ss)))
+		return nil
+	}
+	return ss[0]
+}
+
+// v is the descriptor of the value produced by a call site.
+func (r *R) v(site ssa.CallInstruction) string {
+	if site == nil {
+		return "<unresolved>"
+	}
+	if val := site.Value(); val != nil {
+		return r.d.Of(val)
+	}
+	return "<novalue>"
+}
+
+// pathsThrough returns the paths of fn that execute the instruction's block.
+func pathsThrough(paths []*core.Path, ins ssa.Instruction) []*core.Path {
+	var out []*core.Path
+	for _, pt := range paths {
+		if pt.PassesThrough(ins.Block()) {
+			out = append(out, pt)
+		}
+	}
+	return out
+}
+
+// evOf finds the event for a call instruction on a path.
+func evOf(pt *core.Path, ins ssa.Instruction) (core.Ev, bool) {
+	for _, e := range pt.Evs {
+		if e.Instr == ins {
+			return e, true
+		}
+	}
+	return core.Ev{}, false
+}
+
+// emitters checks the who-may-call table of an FSM event wrapper.
+func (r *R) emitters(rule, method string, allowed ...string) {
+	r.onlyCallers(rule, "(*channels.Channels)."+method, 1, allowed...)
+}
+
+// table checks a small pure function against a decision table (DESIGN E6):
+// for every total assignment of the listed atoms, every path consistent with
+// it must return want(assignment). Return values that are themselves one of
+// the atoms (or its negation) are evaluated under the assignment; for
+// non-boolean functions want returns the expected descriptor of result ri.
+// A path that branches on a condition outside the listed atoms is reported.
+func (r *R) table(rule string, fn *ssa.Function, ri int, atoms []string, want func(a map[string]bool) string) {
+	if fn == nil {
+		return
+	}
+	paths := r.pathsOf(rule, fn)
+	if paths == nil {
+		return
+	}
+	fname := core.ShortFn(fn)
+	known := map[string]bool{}
+	for _, a := range atoms {
+		known[a] = true
+	}
+	for i, pt := range paths {
+		for _, a := range pt.Atoms {
+			if !known[a.S] {
+				r.c.Bad(rule, fmt.Sprintf("%s/unexpected-condition#%d", fname, i+1), r.p.Pos(fn.Pos()),
+					fmt.Sprintf("%s branches on %q, which is not one of the conditions the property allows it to depend on {%s}", fname, a.S, strings.Join(atoms, ", ")))
+				return
+			}
+		}
+		if pt.End != "return" {
+			r.c.Bad(rule, fmt.Sprintf("%s/noreturn#%d", fname, i+1), r.p.Pos(fn.Pos()), fname+" has a path that does not return ("+pt.End+")")
+			return
+		}
+	}
+	n := 1 << len(atoms)
+	for bits := 0; bits < n; bits++ {
+		asg := map[string]bool{}
+		var label []string
+		for j, a := range atoms {
+			asg[a] = bits&(1<<j) != 0
+			if asg[a] {
+				label = append(label, "+"+a)
+			} else {
+				label = append(label, "-"+a)
+			}
+		}
+		exp := want(asg)
+		if exp == "<infeasible>" {
+			continue
+		}
+		key := fname + "/" + strings.Join(label, " ")
+		matched := 0
+		ok := true
+		detail := ""
+		for _, pt := range paths {
+			cons := true
+			for _, a := range pt.Atoms {
+				if asg[a.S] != a.Pol {
+					cons = false
+					break
+				}
+			}
+			if !cons {
+				continue
+			}
+			matched++
+			got := "<none>"
+			if pt.Ret != nil && ri < len(pt.Ret.Results) {
+				rv := pt.Ret.Results[ri]
+				got = pt.Desc(rv)
+				if got != "true" && got != "false" {
+					at := pt.D.NormAtom(rv, true)
+					if v, isAtom := asg[at.S]; isAtom {
+						if v == at.Pol {
+							got = "true"
+						} else {
+							got = "false"
+						}
+					}
+				}
+			}
+			if got != exp {
+				ok = false
+				detail = fmt.Sprintf("under {%s} %s returns %s, the property requires %s", strings.Join(label, " "), fname, got, exp)
+			}
+		}
+		if matched == 0 {
+			r.c.Bad(rule, key, r.p.Pos(fn.Pos()), "no path of "+fname+" covers this case")
+			continue
+		}
+		r.c.Check(ok, rule, key, r.p.Pos(fn.Pos()), "returns "+exp, detail)
+	}
+}
+
+func b2s(b bool) string {
+	if b {
+		return "true"
+	}
+	return "false"
+}
